@@ -591,7 +591,199 @@ fn check_conc(c: &Conc) -> CheckResult {
     }
 }
 
+// ------------------------------------------- broadcast vs concurrent mutation
+
+/// A sink that mutates the registry from inside `send_notify` (sends run outside
+/// the registry lock, so this is legal) and records what it received.
+struct ActingSink {
+    reg: PeerRegistry,
+    action: Option<Act>,
+    log: std::sync::Mutex<Vec<String>>,
+    sinks: std::sync::Mutex<Vec<Arc<ActingSink>>>,
+}
+
+#[derive(Debug, Clone, Copy, Serialize, Deserialize, Hash, PartialEq, Eq)]
+pub enum Act {
+    Remove(u8),
+    Insert(u8),
+    Alias(u8, u8),
+}
+
+impl repe::PeerSink for ActingSink {
+    fn send_notify(&self, method: &str, _body: repe::NotifyBody) -> Result<(), repe::PeerSendError> {
+        self.log.lock().unwrap().push(method.to_string());
+        match self.action {
+            Some(Act::Remove(p)) => {
+                self.reg.remove(PeerId(p as u64));
+            }
+            Some(Act::Insert(p)) => {
+                if self.reg.get(PeerId(p as u64)).is_none() {
+                    let all = self.sinks.lock().unwrap();
+                    if let Some(s) = all.get(p as usize) {
+                        self.reg.insert(repe::PeerHandle::new(PeerId(p as u64), s.clone()));
+                    }
+                }
+            }
+            Some(Act::Alias(p, k)) => {
+                self.reg.alias(PeerId(p as u64), key_name(k));
+            }
+            None => {}
+        }
+        Ok(())
+    }
+}
+
+#[derive(Debug, Clone, Serialize, Deserialize, Hash, PartialEq, Eq)]
+pub struct Reentrant {
+    /// which of the 6 peers are present at the call
+    pub present: u8,
+    /// per-peer action performed inside its send_notify
+    pub actions: Vec<Option<Act>>,
+    pub kind: u8,
+}
+
+fn check_reentrant(c: &Reentrant) -> CheckResult {
+    const N: usize = 6;
+    let reg = PeerRegistry::new();
+    let sinks: Vec<Arc<ActingSink>> = (0..N)
+        .map(|i| {
+            Arc::new(ActingSink {
+                reg: reg.clone(),
+                action: c.actions.get(i).copied().flatten(),
+                log: std::sync::Mutex::new(Vec::new()),
+                sinks: std::sync::Mutex::new(Vec::new()),
+            })
+        })
+        .collect();
+    for s in &sinks {
+        *s.sinks.lock().unwrap() = sinks.clone();
+    }
+    let mut present = BTreeSet::new();
+    for i in 0..N {
+        if c.present & (1 << i) != 0 {
+            reg.insert(repe::PeerHandle::new(PeerId(i as u64), sinks[i].clone()));
+            present.insert(i as u64);
+        }
+    }
+    let res = match c.kind % 3 {
+        0 => reg.broadcast_notify_utf8("/b", "x"),
+        1 => reg.broadcast_notify_raw("/b", BodyFormat::RawBinary, &[1, 2]),
+        _ => reg
+            .broadcast_notify_json("/b", &serde_json::json!({"k": 1}))
+            .map_err(|e| Fail::new("broadcast-error", e.to_string()))?,
+    };
+    let keys: BTreeSet<u64> = res.keys().map(|p| p.0).collect();
+    ensure!(
+        keys == present,
+        "broadcast-recipients-not-fixed-at-call",
+        "peers present at the call {present:?}; results reported for {keys:?} (sinks mutate the registry during delivery: {:?})",
+        c.actions
+    );
+    for (i, s) in sinks.iter().enumerate() {
+        let n = s.log.lock().unwrap().len();
+        let want = usize::from(present.contains(&(i as u64)));
+        ensure!(
+            n == want,
+            "broadcast-delivery-count",
+            "peer {i} received {n} notifies; it was {} at the moment of the call",
+            if want == 1 { "present" } else { "absent" }
+        );
+    }
+    let mutating = (0..N).any(|i| c.present & (1 << i) != 0 && c.actions.get(i).copied().flatten().is_some());
+    // sinks drop their cross references (avoid Arc cycles)
+    for s in &sinks {
+        s.sinks.lock().unwrap().clear();
+    }
+    Ok(CaseInfo::new(mutating).class(if mutating { "mutating-sink" } else { "passive-sinks" }))
+}
+
+fn reentrant() -> BoxedStrategy<Reentrant> {
+    let act = prop_oneof![
+        3 => Just(None),
+        3 => (0u8..6).prop_map(|p| Some(Act::Remove(p))),
+        2 => (0u8..6).prop_map(|p| Some(Act::Insert(p))),
+        1 => (0u8..6, 0u8..3).prop_map(|(p, k)| Some(Act::Alias(p, k))),
+    ];
+    (0u8..64, prop::collection::vec(act, 6), 0u8..3)
+        .prop_map(|(present, actions, kind)| Reentrant { present, actions, kind })
+        .boxed()
+}
+
+/// Broadcast racing a mutator thread: the reported recipient set must be one of
+/// the states the registry actually went through during the call.
+#[derive(Debug, Clone, Serialize, Deserialize, Hash, PartialEq, Eq)]
+pub struct Racing {
+    pub present: u8,
+    pub mutations: Vec<(bool, u8)>,
+}
+
+fn check_racing(c: &Racing) -> CheckResult {
+    const N: usize = 5;
+    let reg = PeerRegistry::new();
+    let sinks: Vec<Arc<RecSink>> = (0..N).map(|_| RecSink::new(SinkMode::Ok)).collect();
+    let mut state: BTreeSet<u64> = BTreeSet::new();
+    for i in 0..N {
+        if c.present & (1 << i) != 0 {
+            reg.insert(handle(i as u64, &sinks[i]));
+            state.insert(i as u64);
+        }
+    }
+    let mut states = vec![state.clone()];
+    let barrier = Arc::new(std::sync::Barrier::new(2));
+    let muts = c.mutations.clone();
+    let reg2 = reg.clone();
+    let sinks2 = sinks.clone();
+    let b2 = barrier.clone();
+    let mut st2 = state.clone();
+    let t = std::thread::spawn(move || {
+        let mut seq = Vec::new();
+        b2.wait();
+        for (ins, p) in muts {
+            let p = p as usize % N;
+            if ins {
+                if !st2.contains(&(p as u64)) {
+                    reg2.insert(handle(p as u64, &sinks2[p]));
+                    st2.insert(p as u64);
+                }
+            } else {
+                reg2.remove(PeerId(p as u64));
+                st2.remove(&(p as u64));
+            }
+            seq.push(st2.clone());
+        }
+        seq
+    });
+    barrier.wait();
+    let res = reg.broadcast_notify_utf8("/race", "x");
+    states.extend(t.join().map_err(|_| Fail::new("panic", "mutator panicked"))?);
+    let keys: BTreeSet<u64> = res.keys().map(|p| p.0).collect();
+    ensure!(
+        states.contains(&keys),
+        "broadcast-recipients-no-instant",
+        "result keys {keys:?} match no state the registry went through during the call: {states:?}"
+    );
+    for (i, s) in sinks.iter().enumerate() {
+        let n = s.take().len();
+        let want = usize::from(keys.contains(&(i as u64)));
+        ensure!(
+            n == want,
+            "broadcast-delivery-count",
+            "peer {i} received {n} notifies but the result map {} it",
+            if want == 1 { "lists" } else { "omits" }
+        );
+    }
+    Ok(CaseInfo::new(states.len() > 1 && !state.is_empty()).class("racing-broadcast"))
+}
+
+fn racing() -> BoxedStrategy<Racing> {
+    (0u8..32, prop::collection::vec((any::<bool>(), 0u8..5), 1..8))
+        .prop_map(|(present, mutations)| Racing { present, mutations })
+        .boxed()
+}
+
 pub fn run(ctx: &Ctx, rep: &Report) {
+    run_prop(ctx, rep, "broadcast-reentrant", ctx.tier.pick(20_000, 300_000), &|| reentrant(), &check_reentrant);
+    run_prop(ctx, rep, "broadcast-racing", ctx.tier.pick(3_000, 60_000), &|| racing(), &check_racing);
     run_exhaustive(ctx, rep, ctx.tier.pick(5, 6));
     run_prop(ctx, rep, "random", ctx.tier.pick(20_000, 400_000), &|| hist_random(), &check_hist);
     run_prop(ctx, rep, "concurrent", ctx.tier.pick(3_000, 60_000), &|| conc(), &check_conc);
@@ -601,6 +793,8 @@ pub fn replay(sub: &str, case: &Value) -> Result<(), Fail> {
     match sub {
         "exhaustive" | "random" => replay_case::<Hist>(case, &check_hist),
         "concurrent" => replay_case::<Conc>(case, &check_conc),
+        "broadcast-reentrant" => replay_case::<Reentrant>(case, &check_reentrant),
+        "broadcast-racing" => replay_case::<Racing>(case, &check_racing),
         _ => Err(Fail::new("replay-unknown-sub", sub.to_string())),
     }
 }
